@@ -122,6 +122,44 @@ def run(ctx):
         okg = any("not in writer_fields" in x or "not in record" in x for x in g)
         ctx.check("C08.R3", "defaults are applied only to fields absent from the writer / not decoded", okg, rr.where(dflt_sites[0]), f"{rr.qualname}: default under {g}", "a default can overwrite a value that was decoded from the data")
 
+        # what the default-filling loop walks over: the reader's fields, each once and under its own name
+        pm_ = {}
+        for x in ast.walk(rr.node):
+            for c_ in ast.iter_child_nodes(x):
+                pm_[id(c_)] = x
+        lp = pm_.get(id(dflt_sites[0]))
+        while lp is not None and not isinstance(lp, ast.For):
+            lp = pm_.get(id(lp))
+        RSn = rr.pos_params[3] if len(rr.pos_params) > 3 else "reader_schema"
+        if lp is None:
+            ctx.unrecognised("C08.R3", "defaults: the loop over the reader's fields", rr.where(dflt_sites[0]), "the default is not filled in inside a loop")
+        else:
+            it = lp.iter
+            src = it.func.value if isinstance(it, ast.Call) and isinstance(it.func, ast.Attribute) and it.func.attr in ("items", "values", "keys") and not it.args else it
+            if norm(src) == f"{RSn}['fields']":
+                ctx.holds("C08.R3", "defaults: the loop walks the reader's fields", rr.where(lp))
+            elif isinstance(src, ast.Name):
+                tbl = src.id
+                keys = []
+                for n in walk_local(rr.node):
+                    if isinstance(n, ast.Assign):
+                        for t in n.targets:
+                            if isinstance(t, ast.Subscript) and isinstance(t.value, ast.Name) and t.value.id == tbl:
+                                keys.append((n, t.slice))
+                        if any(isinstance(t, ast.Name) and t.id == tbl for t in n.targets) and isinstance(n.value, ast.DictComp):
+                            keys.append((n, n.value.key))
+                        elif any(isinstance(t, ast.Name) and t.id == tbl for t in n.targets) and not (isinstance(n.value, ast.Dict) and not n.value.keys):
+                            keys.append((n, None))
+                    elif isinstance(n, ast.Call) and isinstance(n.func, ast.Attribute) and n.func.attr in ("update", "setdefault") and isinstance(n.func.value, ast.Name) and n.func.value.id == tbl:
+                        keys.append((n, None))
+                if not keys:
+                    ctx.unrecognised("C08.R3", "defaults: the table of reader fields", rr.where(lp), f"no store into {tbl} found")
+                else:
+                    odd = [(n, k) for (n, k) in keys if k is None or not (isinstance(k, ast.Subscript) and isinstance(k.slice, ast.Constant) and k.slice.value == "name")]
+                    ctx.check("C08.R3", "defaults: the table the loop walks is keyed by the reader's field names only", not odd, rr.where(odd[0][0]) if odd else rr.where(lp), f"{rr.qualname}: {tbl} also receives `{norm(odd[0][0])[:70]}`" if odd else "", "the table that drives default filling has entries that are not field names (aliases): a reader alias the writer does not use is taken for a missing reader field, its default overwrites the decoded value or SchemaResolutionError is raised")
+            else:
+                ctx.unrecognised("C08.R3", "defaults: the loop over the reader's fields", rr.where(lp), f"iterates {norm(it)[:60]}")
+
     # ---- R4 failure raises -----------------------------------------------------------------------
     ctx.rule("C08.R4", "match_schemas has no implicit-None exit; read_union's result is definitely assigned; read_enum unknown symbol -> reader default else raise", floor=3)
     ms = p.func("_read_py:match_schemas")
